@@ -331,6 +331,7 @@ func (this *partition) proposeAndWaitForCommit(ctx context.Context, proposal *pb
 	if err := this.raft.Propose(ctx, proposalData); err != nil {
 		return nil, err
 	}
+	verifPause("proposed")
 
 	select {
 	case res := <-notifC:
